@@ -172,8 +172,32 @@ def main():
             (nth_sunday(y, 9, -1), 2, 45, 60),  # Chatham gap 02:45-03:45
             (nth_sunday(y, 4, 1), 2, 45, 60),   # Chatham repeated hour
         ]
-        for d, hh, mm, width in windows:
-            w0 = datetime(d.year, d.month, d.day, hh, mm)
+        wins = [(datetime(d.year, d.month, d.day, hh, mm), width, False) for d, hh, mm, width in windows]
+        if y == 2021:
+            # windows read from the system's zone data by the parent (every zone, 1900-2200; see props/c18_zones.py)
+            wins = [(datetime.fromisoformat(h["start"]), h["minutes"], True) for h in spec.get("hot", [])]
+        for w0, width, with_dates in wins:
+            if with_dates:
+                d0 = date(w0.year, w0.month, w0.day)
+                days = [d0 + timedelta(days=k) for k in (-2, -1, 0, 1, 3)]
+                sets = [[{"time": x, "width": 20 + 3 * i, "text": "D%d" % i} for i, x in enumerate(days)],
+                        [{"time": x, "width": 20 + 3 * i, "text": "M%d" % i} for i, x in enumerate([days[2], w0 + timedelta(hours=7), days[3], w0 - timedelta(hours=30)])]]
+                for data in sets:
+                    for cls in (TimelineSVG, TimelineTex):
+                        for own_scale in (True, False):
+                            opts = {"direction": "down", "initialWidth": 900, "initialHeight": 300, "labella": {"maxPos": 860}}
+                            if own_scale:
+                                opts["scale"] = TimeScale()
+                            dd = [dict(x) for x in data]
+                            L.call(cls.__name__ + ".export.date-items", lambda *_a: cls(dd, options=opts).export(), [datetime(x["time"].year, x["time"].month, x["time"].day, 0, 1) for x in data], own_scale)
+                for u in UNITS:
+                    iv = d3_time[u]
+                    for q in (w0, w0 + timedelta(minutes=width / 2.0), w0 + timedelta(minutes=width), w0 - timedelta(milliseconds=1)):
+                        q = q.replace(microsecond=q.microsecond // 1000 * 1000)
+                        L.call(u + ".floor", iv.floor, q)
+                        L.call(u + ".ceil", iv.ceil, q)
+                        L.call(u + ".round", iv.round, q)
+                    L.call(u + ".range", iv.range, w0 - timedelta(seconds=2 * approx[u]), w0 + timedelta(seconds=2 * approx[u]), 1)
             data = []
             for i in range(5):
                 t = w0 + timedelta(minutes=width * (i + 0.5) / 5.0, seconds=rng.randrange(60))
